@@ -19,6 +19,7 @@
 
 mod cases;
 mod oracle;
+mod valid;
 mod workload;
 
 use cases::{Case, Entry};
@@ -135,8 +136,19 @@ fn reflect_class(e: &Error) -> String {
                 "alias-error".into()
             }
         }
-        other => format!("kind-{}", vcore::errs::kind(other)),
+        other => {
+            let k = vcore::errs::kind(other);
+            match k.as_str() {
+                "ValidationError" | "ValidationErrors" => "validation-garde".into(),
+                "ValidatorError" | "ValidatorErrors" => "validation-validator".into(),
+                _ => format!("kind-{k}"),
+            }
+        }
     }
+}
+
+fn is_validation_kind(kind: &str) -> bool {
+    matches!(kind, "ValidationError" | "ValidationErrors" | "ValidatorError" | "ValidatorErrors")
 }
 
 /// Does the message of this error carry text taken from the input?
@@ -152,7 +164,8 @@ fn reflects_input(e: &Error) -> bool {
         | Error::SerdeInvalidType { .. }
         | Error::SerdeInvalidValue { .. }
         | Error::AliasError { .. } => true,
-        _ => false,
+        // paths carry map keys of the input; custom rules may repeat the value
+        other => is_validation_kind(&vcore::errs::kind(other)),
     }
 }
 
@@ -201,8 +214,13 @@ fn render_all(run: &Run, c: &Case, e: &Error, full: bool) -> Vec<Rendering> {
         run.eval();
         match catch(f) {
             Ok(text) => out.push(Rendering { name, chan, fm, text }),
-            Err(p) => report(run, &format!("C17:panic:{name}:{}", panic_site(&p)), c, format!("rendering channel {name} panicked: {p}"),
-            ),
+            Err(p) => {
+                // signature: channel family + crate-relative panic site
+                let site = panic_site(&p);
+                let site = site.rsplit_once("/registry/src/").map(|(_, r)| r.split_once('/').map(|(_, x)| x).unwrap_or(r)).unwrap_or(&site).to_string();
+                let fam = if chan == Chan::Miette { "miette-handler" } else { "render" };
+                report(run, &format!("C17:panic:{fam}:{site}"), c, format!("rendering channel {name} panicked: {p}"))
+            }
         }
     };
     let off = |f: &dyn MessageFormatter| {
@@ -387,6 +405,23 @@ fn check_case_inner(run: &Run, c: &Case, full: bool, lc: &mut Local) {
     let model: Option<SrcModel> = c.text.as_deref().map(SrcModel::new);
 
     let renderings = render_all(run, c, &e, full);
+    if run.is_replay().is_some() && std::env::var_os("C17_DUMP").is_some() {
+        // development aid: show what was rendered
+        if let Error::WithSnippet { regions, crop_radius, .. } = &e {
+            for r in regions {
+                eprintln!(
+                    "region lines {}..={} radius {} text {:?}",
+                    r.start_line,
+                    r.end_line,
+                    crop_radius,
+                    r.text.chars().map(|c| if c == '\u{a0}' { '_' } else { c }).collect::<String>()
+                );
+            }
+        }
+        for r in &renderings {
+            eprintln!("----- {} -----\n{}", r.name, r.text);
+        }
+    }
     let mut any_snippet = false;
     let mut msg_cache: BTreeMap<u8, Result<String, String>> = BTreeMap::new();
 
@@ -442,6 +477,11 @@ fn check_case_inner(run: &Run, c: &Case, full: bool, lc: &mut Local) {
         match r.chan {
             Chan::Plain => {}
             Chan::Miette => {
+                if is_validation_kind(&kind) {
+                    // several related diagnostics with their own labels: only terminal safety is judged
+                    lc.add("miette/validation-report");
+                    continue;
+                }
                 if let (Some(m), Some(l)) = (&model, loc) {
                     let wins = oracle::parse_miette(&r.text);
                     if wins.is_empty() {
@@ -461,7 +501,77 @@ fn check_case_inner(run: &Run, c: &Case, full: bool, lc: &mut Local) {
                         Some(d) => (d.reference_location.line(), d.reference_location.column()),
                         None => (l.line(), l.column()),
                     };
-                    verdicts(run, c, lc, r, &kind, vec![oracle::check_miette_marker(&wins, m, line, col)]);
+                    let also: Vec<u64> = dual.map(|d| vec![d.reference_location.line(), d.defined_location.line()]).unwrap_or_default();
+                    let mut vs = vec![oracle::check_miette_marker(&wins, m, line, col, &also)];
+                    let mut cols = vec![col];
+                    if let Some(d) = dual {
+                        // second label: the anchor
+                        vs.push(oracle::check_miette_marker(&wins, m, d.defined_location.line(), d.defined_location.column(), &also));
+                        cols.push(d.defined_location.column());
+                    }
+                    // (a bare CR is a line break for the parser, not for the adapter's column count)
+                    if !vs.iter().any(|v| matches!(v, Verdict::Violation(..))) && !m.lone_cr && !m.inner_bom {
+                        let mut eol_cols = Vec::new();
+                        let mut locs = vec![(line, col)];
+                        if let Some(d) = dual {
+                            locs.push((d.defined_location.line(), d.defined_location.column()));
+                        }
+                        for (l, cl) in locs {
+                            if cl == 1 && l >= 2 {
+                                if let Some(n) = m.line_len(l as usize - 1) {
+                                    eol_cols.push(n as u64 + 1);
+                                    eol_cols.push(n as u64);
+                                }
+                            }
+                        }
+                        vs.push(oracle::check_miette_column_notes(&r.text, &cols, &eol_cols));
+                    }
+                    for v in &vs {
+                        if let Verdict::Violation(sig, _) = v {
+                            run.observe("miette_violation_kinds", &format!("{sig}/{kind}/{}", c.entry.name()));
+                        }
+                    }
+                    verdicts(run, c, lc, r, &kind, vs);
+                }
+            }
+            Chan::Snippet if is_validation_kind(&kind) => {
+                if c.flags & cases::F_MULTILINE != 0 {
+                    lc.add("unspecified/multiline-message");
+                    continue;
+                }
+                let Some(m) = &model else { continue };
+                if c.enc != "utf8" {
+                    continue;
+                }
+                let ring = !c.entry.is_string() && c.input.len() > RING;
+                let blocks = oracle::parse_blocks(&r.text, matches!(r.fm, Fm::Custom | Fm::DevL));
+                lc.add("validation/reports-parsed");
+                for b in &blocks {
+                    if b.lines.is_empty() {
+                        // plain fallback for this issue / anchor: allowed
+                        lc.add(if b.raw { "validation/anchor-without-window" } else { "validation/issue-title-without-window" });
+                        continue;
+                    }
+                    lc.add(if b.raw { "validation/defined-here-windows" } else { "validation/issue-windows" });
+                    for nl in &b.lines {
+                        if nl.text.is_empty() && m.line_len(nl.n).map(|l| l > 0).unwrap_or(false) && !m.lone_cr {
+                            lc.add("observed/context-line-shown-empty-for-nonempty-input-line");
+                        }
+                    }
+                    let vs = oracle::check_window(
+                        &b.lines,
+                        &WinCtx {
+                            src: m,
+                            line: b.line,
+                            col: b.col,
+                            radius: c.radius,
+                            raw_window: b.raw || oracle::shared_leading_ws(&b.lines) > 20,
+                            ring_may_have_evicted: ring,
+                            reader: !c.entry.is_string(),
+                            name: if b.raw { "defined-here-window" } else { "primary-window" },
+                        },
+                    );
+                    verdicts(run, c, lc, r, &kind, vs);
                 }
             }
             Chan::Snippet => {
@@ -534,7 +644,7 @@ fn check_case_inner(run: &Run, c: &Case, full: bool, lc: &mut Local) {
                             line: pl,
                             col: pc,
                             radius: c.radius,
-                            raw_window: false,
+                            raw_window: oracle::shared_leading_ws(primary) > 20,
                             ring_may_have_evicted: ring,
                             reader: !c.entry.is_string(),
                             name: "primary-window",
@@ -559,7 +669,7 @@ fn check_case_inner(run: &Run, c: &Case, full: bool, lc: &mut Local) {
                         line: pl,
                         col: pc,
                         radius: c.radius,
-                        raw_window: false,
+                        raw_window: oracle::shared_leading_ws(primary) > 20,
                         ring_may_have_evicted: ring,
                             reader: !c.entry.is_string(),
                         name: "primary-window",
@@ -619,6 +729,9 @@ fn verdicts(run: &Run, c: &Case, lc: &mut Local, r: &Rendering, kind: &str, vs: 
             Verdict::Held(what) => lc.add(&format!("held/{what}")),
             Verdict::Unspecified(what) => lc.add(&format!("unspecified/{what}")),
             Verdict::Violation(sig, detail) => {
+                // a raw NUL ends the stream for the parser; locations of the errors that follow carry a
+                // line/column and a span that disagree - its own class
+                let sig = if sig.starts_with("miette-") && c.input.contains(&0u8) { format!("{sig}:nul-in-input") } else { sig };
                 let sig = if !c.entry.is_string() && !sig.contains("defined-here") {
                     format!("C17:{sig}:reader")
                 } else {
@@ -668,7 +781,7 @@ fn main() {
     let on = |w: &str| only.as_deref().map(|o| o.split(',').any(|x| x == w)).unwrap_or(true);
 
     // ---- W1: exhaustive token strings x targets (failing pairs only proceed to rendering)
-    let max_len = tier.pick(3, 4);
+    let max_len = 4;
     let toks = workload::TOKENS;
     let mut total = 0usize;
     let mut pow = 1usize;
@@ -676,6 +789,8 @@ fn main() {
         pow *= toks.len();
         total += pow;
     }
+    // hash-chosen (radius, with_snippet, entry point) configurations next to the default one
+    let alt_n: u64 = tier.pick(2, 5);
     let w1_targets: &[&'static str] = &["MapI32", "Strict", "En", "VecString", "TupU8Str", "String", "Val"];
     par_range(if on("w1") { total } else { 0 }, |i| {
         let s = workload::token_string(i);
@@ -684,13 +799,28 @@ fn main() {
             let full = (h.wrapping_add(ti as u64)) % 8 == 0;
             let mut c = Case::new(&s, t, "tokens");
             check_case(&run, &c, full);
-            // one more configuration per pair, chosen by a hash of the pair (seed-independent)
-            let (radius, snip, entry) = workload::alt_config(h.wrapping_mul(31).wrapping_add(ti as u64));
-            c.radius = radius;
-            c.with_snippet = snip;
-            c.entry = entry;
-            c.family = "tokens-alt";
-            check_case(&run, &c, full);
+            // more configurations per pair, chosen by a hash of the pair (seed-independent)
+            for k in 0..alt_n {
+                let (radius, snip, entry) =
+                    workload::alt_config(h.wrapping_mul(31).wrapping_add(ti as u64).wrapping_add(k.wrapping_mul(7919)));
+                c.radius = radius;
+                c.with_snippet = snip;
+                c.entry = entry;
+                c.family = "tokens-alt";
+                check_case(&run, &c, full);
+            }
+        }
+    });
+    // thorough: one more token (all strings of exactly 5 tokens), default options, four targets
+    let len5 = pow * toks.len();
+    let w1b_targets: &[&'static str] = &["MapI32", "Strict", "En", "VecString"];
+    let w1b_n = if on("w1b") && tier == Tier::Thorough { len5 } else { 0 };
+    par_range(w1b_n, |i| {
+        let s = workload::token_string(total + i);
+        let h = vcore::fnv(s.as_bytes());
+        for (ti, t) in w1b_targets.iter().enumerate() {
+            let c = Case::new(&s, t, "tokens-len5");
+            check_case(&run, &c, (h.wrapping_add(ti as u64)) % 16 == 0);
         }
     });
 
@@ -714,7 +844,7 @@ fn main() {
     });
 
     // ---- W3b: two-window (alias) geometry: the hand-written "defined here" window
-    let w3bn = if on("w3b") { tier.pick(12_000, 80_000) } else { 0 };
+    let w3bn = if on("w3b") { tier.pick(40_000, 400_000) } else { 0 };
     par_range(w3bn, |i| {
         for c in workload::alias_case(run.seed, i) {
             check_case(&run, &c, i % 2 == 0);
@@ -722,7 +852,7 @@ fn main() {
     });
 
     // ---- W4: reader ring (inputs around and beyond the ring size), W5: UTF-16 through the reader
-    let w4n = if on("w4") { tier.pick(5000, 40_000) } else { 0 };
+    let w4n = if on("w4") { tier.pick(15_000, 200_000) } else { 0 };
     par_range(w4n, |i| {
         for c in workload::ring_case(run.seed, i) {
             check_case(&run, &c, i % 4 == 0);
@@ -734,8 +864,39 @@ fn main() {
         }
     }
 
+    // ---- W7: validation reports (garde + validator), exhaustive template grid
+    let w7 = if on("w7") { workload::validation_cases(tier) } else { Vec::new() };
+    run.count("w7_validation_grid", w7.len() as u64);
+    par_range(w7.len(), |i| check_case(&run, &w7[i], true));
+
+    // ---- W8: reader window start at every offset inside a line
+    let w8n = if on("w8") { workload::ring_sweep_count(tier) } else { 0 };
+    par_range(w8n, |i| {
+        for c in workload::ring_sweep_case(tier, i) {
+            check_case(&run, &c, i % 8 == 0);
+        }
+    });
+
+    // ---- W9: error at every column of mixed-width lines x every small radius
+    let w9n = if on("w9") { workload::column_sweep_count(tier) } else { 0 };
+    par_range(w9n, |i| {
+        for c in workload::column_sweep_case(tier, i) {
+            check_case(&run, &c, i % 4 == 0);
+        }
+    });
+
+    // ---- W10: failing document at every position of small streams
+    let w10 = if on("w10") { workload::stream_cases() } else { Vec::new() };
+    run.count("w10_stream_grid", w10.len() as u64);
+    par_range(w10.len(), |i| check_case(&run, &w10[i], true));
+
+    // ---- W11: miette adapter, lines longer than 1 KiB (cropped around their labels)
+    let w11 = if on("w11") { workload::miette_long_cases() } else { Vec::new() };
+    run.count("w11_miette_long_grid", w11.len() as u64);
+    par_range(w11.len(), |i| check_case(&run, &w11[i], true));
+
     // ---- W6: seeded mutations of all of the above
-    let w6n = if on("w6") { tier.pick(100_000, 800_000) } else { 0 };
+    let w6n = if on("w6") { tier.pick(300_000, 5_000_000) } else { 0 };
     par_range(w6n, |i| {
         if let Some(c) = workload::mutated_case(tier, run.seed, i, &w2) {
             check_case(&run, &c, i % 4 == 0);
@@ -748,17 +909,33 @@ fn main() {
     }
 
     let scope = format!(
-        "all {total} non-empty strings of <= {max_len} tokens over the 28-token alphabet of DESIGN C01 x 7 targets x (default options via from_str + one hash-chosen (radius, with_snippet, entry point) configuration); the full reflected-control-character template grid ({} cases: payloads x spellings x templates x context x LF/CRLF x (radius, snippet, entry) configurations)",
-        w2.len()
+        "(1) all {total} non-empty strings of <= {max_len} tokens over the 28-token alphabet of DESIGN C01 x 7 targets x (default options via from_str + {alt_n} hash-chosen (radius in {{0,1,2,3,64,10^6}}, with_snippet, entry point in 9) configurations){}; \
+         (2) the reflected-control-character grid: {} cases = 13 payloads x 4 spellings (short escapes, \\u escapes, raw in quotes, raw plain) x ~50 reflecting templates (duplicate key, unknown field, unknown variant, tag, quoting-required, custom message, alias-wrapped, parser messages, robotics hook, borrowed str) x 3 leading x 2 trailing comment contexts x LF/CRLF x {} (radius, snippet, entry) configurations, plus {} fixed layouts; \
+         (3) validation reports: {} cases = 13 payloads x 3 spellings x 12 documents (custom-rule message, map key in path, aliased values with use + definition windows, many issues, long lines, multi-document streams) x filler lines x LF/CRLF x {{garde, validator}} x 10 configurations; \
+         (4) reader window alignment: {} documents = filler length 0..{} (byte by byte) x 12 chunk sizes (1 .. 65536, around 3072 and 8192) x 6 line shapes, x radii {{64,5}}; \
+         (5) column sweep: failing element at each of {} positions x 3 leading-blank offsets x 4 line flavours of mixed-width text x radii 0..=12,64,139,140 x {{from_str, from_reader}}; \
+         (7) miette adapter on long lines: {} cases = 5 character classes x (one label at 10 x 10 left/right distances incl. 126..130 and 70000; anchor and alias on one line at 20 gaps incl. 250..=262 and 70000 x 3 left pads; long unlabelled context lines of 1100/5000/70000 characters) x LF/CRLF x {{from_str, from_reader}}; \
+         (6) streams: {} cases = 1..=5 documents x failing document at every index x 1/2/4 lines x 3 separator styles x leading comment x 3 error kinds x 6 (entry, radius) pairs",
+        if w1b_n > 0 { format!(" and all {len5} strings of exactly 5 tokens x 4 targets x default options") } else { String::new() },
+        w2.len(),
+        if tier == Tier::Quick { 9 } else { 33 },
+        workload::fixed_cases().len(),
+        w7.len(),
+        w8n,
+        w8n / 72,
+        workload::column_sweep_count(tier) / 12,
+        w11.len(),
+        w10.len(),
     );
     let fin = Finish::new(
-        "a case (input, target, entry point, radius, with_snippet, flags) is non-trivial when at least one rendering of its error contains a snippet window or the error's message carries text taken from the input (duplicate key, unknown field/variant, tag mismatch, quoting-required value, serde invalid type/value, custom message, alias error); distinct by hash of the whole case",
+        "a case (input, target, entry point, radius, with_snippet, flags) is non-trivial when at least one rendering of its error contains a snippet window or the error's message carries text taken from the input (duplicate key, unknown field/variant, tag mismatch, quoting-required value, serde invalid type/value, custom message, alias error, validation report: map keys in paths and custom-rule messages); distinct by hash of the whole case. Seeded families on top of the exhaustive ones: line geometry (13 character classes x 23 prefix lengths x 5 radii), two-window alias geometry, reader documents around and beyond the 3 KiB window, UTF-16 through the reader, mutations of all documents",
     )
     .exhaustive(scope)
     .assume("the location carried by the error is taken as given (C16 judges it); C17 checks the marker against that location")
     .assume("lines are LF / CRLF terminated; inputs with a CR-only break, a BOM inside the text, a location outside the text, a multi-line message, or a reader window that may start inside a line are counted as unspecified for the marker check")
+    .assume("validation reports: the location a window is checked against is the one its own title / anchor line states (C18 judges where issues point); an issue rendered as a plain message without a window is allowed and counted")
     .assume("context lines lying wholly left of the crop window are left uncropped by design (src/de/snippet.rs crop_line_by_cols); counted as unspecified")
-    .min_nontrivial(if tier == Tier::Quick { 20_000 } else { 200_000 })
+    .min_nontrivial(if tier == Tier::Quick { 1_000_000 } else { 10_000_000 })
     .tool("annotate-snippets 0.12.12 layout (Renderer::plain, DecorStyle::Ascii)")
     .tool("miette 7.6 GraphicalReportHandler, unicode theme without colour")
     .tool("unicode-width 0.2");
